@@ -895,6 +895,14 @@ _H = 'spyne/protocol/dictdoc/hier.py'
 _MI = 'spyne/protocol/soap/mime.py'
 
 MUTANTS = [
+    Mutant('json-nesting-not-converted', 'R2', 'fire', 'spyne/protocol/json.py',
+           in_func('JsonDocument.create_in_document',
+                   "        except RuntimeError as e:", "        except "
+                   "NotImplementedError as e:"), 'RecursionError'),
+    Mutant('json-decode-error-narrowed', 'R2', 'fire', 'spyne/protocol/json.py',
+           lambda src: src.replace("    JSONDecodeError = ValueError\n",
+                                   "    from json import JSONDecodeError\n"),
+           'ValueError'),
     Mutant('envelope-size-unchecked', 'R11', 'fire',
            'spyne/protocol/dictdoc/_base.py',
            in_func('DictDocument.decompose_incoming_envelope',
